@@ -468,19 +468,24 @@ theorem sim_cmyk (cs : SpaceMap) (hdev : devOk cs) (st : IState) (ss : SState) (
 theorem initialColour_eq_iso (sp : Space) : initialColour sp = isoInit sp := by
   obtain ⟨name, n⟩ := sp
   unfold initialColour isoInit
-  by_cases h0 : n = 0
-  · subst h0; simp
+  simp only [initNoneFamily, initMaxComponents, initCmykFamily, initCmyk, initOneFamilies]
+  by_cases h0 : n = 0 ∨ n > 32
+  · have h1 : n < 1 ∨ n > 32 := by omega
+    rcases h1 with h1 | h1 <;> simp [h0, h1]
   · have h1 : ¬ n < 1 := by omega
+    have h2 : ¬ n > 32 := by omega
+    have h3 : ¬ n = 0 := by omega
+    have h4 : ¬ 32 < n := by omega
     by_cases hp : name = "Pattern"
     · subst hp; simp [h0]
     · by_cases hc : name = "DeviceCMYK"
-      · subst hc; simp [h0]
+      · subst hc; simp [h0, h1, h2, h3, h4]
       · by_cases hs : name = "Separation"
-        · subst hs; simp [h0]
+        · subst hs; simp [h0, h1, h2, h3, h4]
         · by_cases hd : name = "DeviceN"
-          · subst hd; simp [h0]
-          · simp only [h0, if_false, beq_iff_eq, hp, hc, hs, hd, Bool.false_or, h1, decide_false,
-              Bool.or_self, Bool.false_eq_true, or_self]
+          · subst hd; simp [h0, h1, h2, h3, h4]
+          · simp only [h0, if_false, beq_iff_eq, hp, hc, hs, hd, Bool.false_or, h1, h2, decide_false,
+              Bool.or_self, Bool.false_eq_true, or_self, List.contains_cons, List.contains_nil]
             split <;> simp_all
 
 theorem sim_cs (cs : SpaceMap) (st : IState) (ss : SState) (hs : Sim cs st ss) (b : Bool) (name : String)
